@@ -194,6 +194,26 @@ def cli_long_flat(cases):
     return hist, viol
 
 
+def gen_layouts():
+    """C05's layout family as crash inputs: every canonical statement form with each separator
+    (blank, tab, LF, CRLF, indentation, four comment placements) at every gap between tokens. The
+    formatter's comment handling is only reached by texts that have comments inside expressions."""
+    from checks import c05          # (c05 imports this module: resolved at call time)
+    for canon in c05.CANON:
+        tokens = canon.split(" ")
+        n = len(tokens)
+        for g in range(n + 1):
+            for sep in c05.GAP_SEPS:
+                if sep == " ":
+                    continue
+                parts = []
+                for k in range(n + 1):
+                    parts.append(sep if k == g else ("" if k in (0, n) else " "))
+                    if k < n:
+                        parts.append(tokens[k])
+                yield "layout", "".join(parts)
+
+
 def repo_sources(max_bytes):
     seen = set()
     out = []
@@ -407,7 +427,8 @@ def run(ctx):
     ctx.rule = ("every token tuple of length <= %d over the %d-token vocabulary (bare and as `let x = ...;`), every arithmetic/comparison operator "
                 "x ordered pairs of 15 edge operands, casts of 43 edge operands, ranges over 8 bounds x 8 steps (length <= 10^6), every format "
                 "template of length <= 4 over 6 characters x 0..3 arguments and the expression form, every raw text of length <= 3 over 14 "
-                "characters in 4 contexts, 16 nesting constructs at depth 1..%d, 35 flat constructs grown to 4 KiB (also through the real `ucg build` "
+                "characters in 4 contexts, every canonical statement form of C05 with each of its separators (incl. four comment placements) at every "
+                "gap between tokens, 16 nesting constructs at depth 1..%d, 35 flat constructs grown to 4 KiB (also through the real `ucg build` "
                 "and `ucg fmt` with their default stack), every repository .ucg file and UTF-8 fuzz-corpus entry "
                 "unmutated, and delete/duplicate/swap/replace-by-12-tokens at every token position of the files under the size bound. "
                 "Every input is a distinct text; non-trivial = reached the parser with a lexically valid text." % (tok_len, len(VOCAB), maxdepth))
@@ -449,6 +470,7 @@ def run(ctx):
         ctx.outcome(k, n)
     ctx.count(sum(h.values()), sum(h.values()))
     viols.extend(v)
+    stream(gen_layouts(), 400, 'layouts')
     stream(gen_arith(), 100, 'arith')
     stream(gen_format(), 300, 'format')
     stream(gen_raw(), 400, 'raw')
